@@ -910,13 +910,117 @@ def mutators_of(cls, table):
     return sorted(names.items())
 
 
-def inputs_for(cls, name):
+# ---- two mechanically built axes on top of the hand-written tables
+#
+# (a) 'other-rule': the cssText setter of EVERY rule kind receives the well-formed text of every rule kind (several spellings each).
+#     A text of another kind - and, for rules that keep their identity for life (the at-keyword of an unknown rule), a text of the same
+#     kind with another identity - is rejected only after it has been parsed completely, i.e. at the latest possible point of the setter.
+WELLFORMED_RULE_TEXTS = {
+    'charset': ['@charset "latin1";'],
+    'import': ['@import "j.css" tv;', '@import url(k.css) "n";'],
+    'namespace': ['@namespace z "zz";', '@namespace "dd";', '@namespace p "u";'],
+    'variables': ['@variables { a: b }'],
+    'fontface': ['@font-face { font-family: y }'],
+    'media': ['@media tv { x { top: 0 } }', '@media tv and (color), tty "n" { }'],
+    'page': ['@page :right { top: 0 }', '@page n { @top-right { top: 0 } }'],
+    'margin': ['@top-right { top: 0 }', '@bottom-left-corner { }', '@TOP-LEFT { left: 0 }'],
+    'style': ['x { top: 0 }', 'x, y > z { }'],
+    'comment': ['/*k*/'],
+    # unknown at-rules: other keyword / same keyword (letter case, escape), every body form (';' - block - brackets - string - function)
+    'unknown': ['@y z;', '@y "other" [k];', '@y { a: b }', '@y;', '@-vendor-y z (w) { v }', '@yy f(1) url(u) { [ ( ) ] }', '@xy z;',
+                '@x w;', '@X w { v }', '@\\78 w;', '@\\79 w;'],
+}
+
+
+def _other_rule_inputs():
+    return [('other-rule', (t,)) for kind in sorted(WELLFORMED_RULE_TEXTS) for t in WELLFORMED_RULE_TEXTS[kind]]
+
+
+# (b) 'codec': every codec Python itself ships (the modules of the ``encodings`` package)
+#     as the new encoding of an @charset rule, through CSSCharsetRule.encoding, CSSCharsetRule.cssText and CSSStyleSheet.encoding.
+#     The names are classified by Python's codec machinery alone (never by cssutils): unknown on this platform / not a text codec /
+#     text codec that does not write '@charset "x";' as its ASCII bytes / ASCII compatible.  The first three classes pass the syntax
+#     check of the setter and are refused - if at all - by its later steps; both tiers take all of them in three spellings (cp037, CP037,
+#     utf-16-le); of the last class (expected to be accepted) the quick tier takes every sixth name, the thorough tier every name, and
+#     the thorough tier adds every registered alias of a codec outside the last class.
+_CODEC_CACHE = {}
+
+
+def _codec_kind(n):
+    import codecs
+    probe = '@charset "x";'
+    try:
+        info = codecs.lookup(n)
+    except LookupError:
+        return 'codec-unknown'
+    if not getattr(info, '_is_text_encoding', True):
+        return 'codec-not-text'
+    try:
+        return 'codec-ascii-compatible' if probe.encode(n) == probe.encode('ascii') else 'codec-not-ascii-compatible'
+    except Exception:
+        return 'codec-cannot-encode'
+
+
+def codec_names(tier='quick'):
+    """-> [(class, name)] of Python's own codecs, classified without cssutils"""
+    if tier in _CODEC_CACHE:
+        return _CODEC_CACHE[tier]
+    import encodings
+    import encodings.aliases
+    import pkgutil
+    names = sorted(m.name for m in pkgutil.iter_modules(encodings.__path__) if m.name != 'aliases')
+    out, n_ascii = [], 0
+
+    def add(kind, n):
+        if (kind, n) not in out:
+            out.append((kind, n))
+    for n in names:
+        kind = _codec_kind(n)
+        if kind == 'codec-ascii-compatible':
+            n_ascii += 1
+            if tier != 'quick' or n_ascii % 6 == 1:
+                add(kind, n)
+            continue
+        # the spellings a user would write: hyphens for underscores, upper case
+        for alt in (n, n.replace('_', '-'), n.upper()):
+            add(kind, alt)
+    if tier != 'quick':
+        # every registered alias of a codec that is not an ASCII-compatible text codec
+        for alias, target in sorted(encodings.aliases.aliases.items()):
+            kind = _codec_kind(alias)
+            if kind != 'codec-ascii-compatible':
+                add(kind, alias)
+    _CODEC_CACHE[tier] = out
+    return out
+
+
+def _count_codec_kinds(tier):
+    out = {}
+    for kind, _ in codec_names(tier):
+        out[kind] = out.get(kind, 0) + 1
+    return out
+
+
+def _axis_inputs(key, cls, tier):
+    """the mechanically built inputs for the table ``key`` (see (a) and (b) above)"""
+    import cssutils.css as C
+    out = []
+    if key[1] == 'cssText' and issubclass(cls, C.CSSRule):
+        out += _other_rule_inputs()
+    if key in (('CSSCharsetRule', 'encoding'), ('CSSStyleSheet', 'encoding')):
+        out += [(kind, (n,)) for kind, n in codec_names(tier)]
+    if key == ('CSSCharsetRule', 'cssText'):
+        out += [(kind, ('@charset "%s";' % n,)) for kind, n in codec_names(tier)]
+    return out
+
+
+def inputs_for(cls, name, tier='quick'):
     import cssutils.css as C
     for c in cls.__mro__:
         key = (c.__name__, name)
         if key in INPUTS:
             v = INPUTS[key]
-            return key, (v() if callable(v) else v)
+            return key, list(v() if callable(v) else v) + _axis_inputs(key, cls, tier)
         if key in EXCLUDED:
             return key, None
     if issubclass(cls, C.CSSStyleDeclaration) and name in C.cssproperties.CSS2Properties._properties:
@@ -981,7 +1085,7 @@ def run_target(job):  # noqa: C901
         for name, kind in mutators_of(cls, table):
             if only is not None and name != only:
                 continue
-            key, inputs = inputs_for(cls, name)
+            key, inputs = inputs_for(cls, name, tier)
             if key is None:
                 res['missing'].append((cls.__name__, name))
                 continue
@@ -1284,7 +1388,7 @@ def all_jobs(tier, readonly=False):
                 continue
             cls = type(got[0])
             for name, kind in mutators_of(cls, table):
-                key, inputs = inputs_for(cls, name)
+                key, inputs = inputs_for(cls, name, tier)
                 if key is not None and inputs is not None and readonly:
                     inputs = readonly_inputs(cls, name)
                 n = len(inputs) if inputs else 1
@@ -1330,6 +1434,8 @@ def classify(f):  # noqa: C901
         if (c in ('CSSStyleSheet', 'CSSRuleList') and m in ('insertRule', 'add', 'append', 'extend') and f['exception'] == 'NoModificationAllowedErr'
                 and 'NamespaceURI defined in this rule is used' in (f['message'] or '') and '@namespace' in str(a0)):
             return 'C11-namespace-insert-cleanup-raises'
+        if c == 'CSSNamespaceRule' and m == 'cssText' and f['exception'] == 'NoModificationAllowedErr' and 'namespaceURI is readonly' in (f['message'] or ''):
+            return 'C11-namespace-csstext-prefix-before-uri'
         return None
     # read-only clause
     if cl == 'readonly-not-rejected':
@@ -1409,6 +1515,8 @@ def witnesses():
         'C11-property-priority-commit-before-check': lambda: _raises_and_changes(lambda: C.Property('color', 'red'), lambda r: setattr(r, 'priority', '!foo'), txt),
         'C11-insertrule-rulelist-partial': lambda: _raises_and_changes(lambda: cssutils.parseString('a{color:red}'), lambda s: s.insertRule(_rulelist('x{top:0} @charset "ascii";'), 0), txt),
         'C11-namespace-insert-cleanup-raises': lambda: _raises_and_changes(lambda: cssutils.parseString(STATES['ns']), lambda s: s.add(C.CSSNamespaceRule('other', 'p')), txt),
+        'C11-namespace-csstext-prefix-before-uri': lambda: _raises_and_changes(lambda: cssutils.parseString('@namespace p "u"; p|a{top:0}'),
+                                                                               lambda s: setattr(s.cssRules[0], 'cssText', '@namespace z "zz";'), txt),
         'C11-ro-value-constructor-ignores-readonly': lambda: _accepts_and_changes(lambda: C.Value('red', readonly=True), lambda v: setattr(v, 'cssText', 'blue'), txt),
         'C11-ro-atkeyword-unguarded': lambda: _accepts_and_changes(lambda: C.MarginRule('@top-left', 'color:red', readonly=True), lambda r: setattr(r, 'atkeyword', '@top-right'), txt),
         'C11-ro-rulelist-list-builtins': lambda: _accepts_and_changes(lambda: _ro_sheet('a{color:red}'), lambda s: operator.delitem(s.cssRules, 0), txt),
@@ -1496,12 +1604,16 @@ def rejected(ctx):
         ctx.undecided.append(f'C11 rejected-inputs domain has shrunk: only {len(kinds)} distinct (class, mutator, stage, exception) kinds were rejected (expected >= {floor}); '
                              'the input tables no longer exercise the rejection paths')
     _known_lines(ctx, ['C11-sheet-csstext-no-restore', 'C11-media-csstext-partial', 'C11-margin-csstext-partial', 'C11-property-csstext-partial',
-                       'C11-property-priority-commit-before-check', 'C11-insertrule-rulelist-partial', 'C11-namespace-insert-cleanup-raises'])
+                       'C11-property-priority-commit-before-check', 'C11-insertrule-rulelist-partial', 'C11-namespace-insert-cleanup-raises',
+                       'C11-namespace-csstext-prefix-before-uri'])
     classes = sorted({c.__name__ for c, _, _ in muts} | {c for c, _, _ in EXTRA_MUTATORS})
     ctx.bounded.append({
         'name': 'rejected mutations', 'evaluations': sum(r['cases'] for r in results), 'distinct_nontrivial': len(kinds), 'exhaustive': False,
         'rule': (f'{len(muts)} public mutators of {len(classes)} DOM classes enumerated mechanically from the class ASTs (+{len(EXTRA_MUTATORS)} listed list/mapping operations) x input tables built to be '
-                 'rejected immediately / after an acceptable prefix / inside a nested object / by position x '
+                 'rejected immediately / after an acceptable prefix / inside a nested object / by position, '
+                 f'plus two mechanically built axes - the cssText setter of every rule kind is given {len(_other_rule_inputs())} well-formed texts covering every rule kind (unknown at-rules with the same and with '
+                 f'another at-keyword in every body form), and CSSCharsetRule.encoding / .cssText and CSSStyleSheet.encoding are given {len(codec_names(ctx.tier))} spellings of the codecs Python ships '
+                 '(' + ', '.join(f'{n} {k}' for k, n in sorted(_count_codec_kinds(ctx.tier).items())) + '; classified by the codec machinery alone) - x '
                  f'{len(states_of(ctx.tier))} prior sheets (every reachable target of each) + {len(_detached())} detached objects, each case on a freshly parsed state in raising mode' + (' and in log-only mode' if ctx.tier != 'quick' else '') + '; '
                  'compared: cssText of target / owner rule / sheet, rule types, property list, selector list, media list, namespaces, and the serialisation of target / owner rule / sheet under '
                  f'{len(profiles)} non-default serializer preference profiles (the {len(vars(__import__("cssutils").ser.prefs))} preferences at a non-default value one at a time' + (' - string-valued ones only jointly -' if ctx.tier == 'quick' else '') + ', useMinified(), all flipped at once); '
@@ -1510,7 +1622,9 @@ def rejected(ctx):
         'mutators_never_rejected_by_any_input': never_rejected,
         'samples': [{'class': k[0], 'mutator': k[1], 'stage': k[2], 'exception': k[3]} for k in kinds[:: max(1, len(kinds) // 3)][:3]],
         'preference_profiles': list(profiles),
-        'bound': (f'{len(jobs)} (state, target, mutator) jobs; fixed input tables; {len(states_of(ctx.tier))} prior states; {len(profiles)} serializer preference profiles besides the defaults '
+        'bound': (f'{len(jobs)} (state, target, mutator) jobs; fixed input tables; every rule kind x {len(_other_rule_inputs())} well-formed rule texts; codec names: every module of the encodings package'
+                  ' that is not an ASCII-compatible text codec (underscore, hyphen and upper-case spelling) and ' + ('every sixth ASCII-compatible one' if ctx.tier == 'quick' else 'every ASCII-compatible one, plus the registered aliases of the former') + '; '
+                  f'{len(states_of(ctx.tier))} prior states; {len(profiles)} serializer preference profiles besides the defaults '
                   '(boolean preferences flipped, importHrefFormat at both documented values, string-valued preferences ' + ("only jointly at ''" if ctx.tier == 'quick' else "one at a time at '' and a tab") + '); calls made with cssutils.log.raiseExceptions in '
                   + repr(error_modes(ctx.tier, False)))})
 
